@@ -104,6 +104,22 @@ func seedBytes(seed int64, label string, n int) []byte {
 	return out[:n]
 }
 
+// newKeyNoJWK derives the key pair only (for searches over many candidates).
+func newKeyNoJWK(seed int64, kt, name string) *Key {
+	k := &Key{KT: kt, Name: name, Alg: algOf(kt)}
+	c := curveOf(kt)
+	n := c.Params().N
+	d := new(big.Int).SetBytes(seedBytes(seed, kt+"/"+name, (n.BitLen()+7)/8+8))
+	d.Mod(d, new(big.Int).Sub(n, big.NewInt(1)))
+	d.Add(d, big.NewInt(1))
+	x, y := c.ScalarBaseMult(d.Bytes())
+	priv := &ecdsa.PrivateKey{PublicKey: ecdsa.PublicKey{Curve: c, X: x, Y: y}, D: d}
+	k.Priv = priv
+	k.Pub = &priv.PublicKey
+
+	return k
+}
+
 // newKey deterministically derives a key pair of the given type from (seed, name).
 func newKey(seed int64, kt, name string) *Key {
 	k := &Key{KT: kt, Name: name, Alg: algOf(kt)}
